@@ -21,8 +21,17 @@ PROPS = {
              ["legal_gen_all_mem", "prefilter soundness", "checker exactness"],
              "Lean Spec oracle (mailbox rules) + Lean Impl model, differential against the real generators; D1 family enumerated",
              "§6 C01", 0.5),
-    "C02": P("exploration", "none yet", ["safe_reach_inv", "makeLike_ok_iff", "makeLike_no_trap"],
-             "differential: five move-like inputs × positions against Spec.Legal / Spec.San.denotes; re-validation and unchanged-on-error observed on the implementation",
+    "C02": P("proof", "valid_iff_validate (Valid b ⇔ the gate returns b unchanged); validate_valid / fen_board_valid (both entry points "
+             "give valid positions); make_checked_iff + make_checked_iff_rules (impl Make for Move accepts exactly the semilegal moves that "
+             "do not leave the mover's king attacked in Spec.apply of the position — via isLegal_nil, exactness of the unprefiltered "
+             "legality test on all three code paths incl. castling and en passant); make_checked_valid (the result is valid, re-validates "
+             "to itself, is Spec.apply of the position, mover not in check); make_checked_no_trap; tryUnchecked_eq (apply-and-test agrees "
+             "with is_legal_unchecked); make_uci_valid, make_ucistr_iff (UCI value / string accepted iff it spells a legal move); "
+             "refusal_restores; backbone: make_shape, valid_make",
+             ["SAN make-likes (san::Move, San<S>) rest on the SAN candidate generators: differential only until C09 is proved",
+              "'semilegal' is the implementation's is_semilegal; its identification with the rules' pseudo-legal set is C06 (differential)",
+              "push through a move chain: C13"],
+             "Lean 4 theorems over all valid boards and all well-formed moves / all byte strings; differential on five move-like inputs × positions ties the model to the code",
              "§6 C02", 0.5),
     "C03": P("proof", "make_refines_apply: for every board with Shape (consistent derived state, rights and en-passant mark backed "
              "by the squares — established by the validation gate), one king per colour, and every well-formed semilegal move that "
